@@ -915,13 +915,10 @@ def rule_or_coperm(repo, col):
     mod = repo.mod(TABLE)
     for c in ctors:
         # which branch
-        ax = None
-        for a in _ancestors(mod, c):
-            if isinstance(a, ast.If) and isinstance(a.test, ast.Compare) and \
-                    dotted(a.test.left) == 'axis' and any(
-                        x is c for b in a.body for x in ast.walk(b)):
-                ax = const_str(a.test.comparators[0])
-                break
+        from .flow import reached_under
+        live = [v for v in ('sample', 'observation')
+                if reached_under(f, c, {'axis': v}) is not False]
+        ax = live[0] if len(live) == 1 else None
         if ax not in ('sample', 'observation'):
             col.unknown(rule, TABLE, 'Table.sort_order', 'branch', c,
                         'axis branch not recognised')
